@@ -368,9 +368,20 @@ fn class_of(e: &ProposalError) -> &'static str {
         ProposalError::OrchardPoolValueCreation { .. } => "OrchardPoolValueCreation",
         ProposalError::OrchardPoolPayment(_) => "OrchardPoolPayment",
         ProposalError::TransactionTooLarge { .. } => "TransactionTooLarge",
+        #[cfg(feature = "transparent")]
+        ProposalError::EphemeralOutputLeftUnspent(_) => "EphemeralOutputLeftUnspent",
+        #[cfg(feature = "transparent")]
+        ProposalError::PaysTexFromShielded => "PaysTexFromShielded",
+        #[cfg(feature = "transparent")]
+        ProposalError::EphemeralOutputsInvalid => "EphemeralOutputsInvalid",
+        #[cfg(feature = "transparent")]
+        ProposalError::EphemeralAddressLinkability => "EphemeralAddressLinkability",
         _ => "Other",
     }
 }
+
+const EPHEMERAL_RULE_CLASSES: [&str; 5] =
+    ["SpendsChange", "EphemeralOutputLeftUnspent", "PaysTexFromShielded", "EphemeralOutputsInvalid", "EphemeralAddressLinkability"];
 
 /// (class, whether the class is one the rule names for the decode path)
 fn decode_class(e: &ProposalDecodingError<String>) -> (String, bool) {
@@ -760,6 +771,16 @@ impl Runner {
             self.mismatch(rec, "panic", exp.clone(), obs.json());
             return;
         }
+        // The ZIP 320 / ephemeral-output rules are enforced when the transactions are created, not by these
+        // validators, and are not part of the rule; should a validator start to apply one of them, that is a
+        // refusal the rule has no opinion on.
+        if let Obs::Build { class, .. } | Obs::Multi { class } = &obs {
+            if EPHEMERAL_RULE_CLASSES.contains(&class.as_str()) && !classes.contains(class) {
+                self.st.unjudged += 1;
+                *self.st.unjudged_outcomes.entry(obs.json().to_string()).or_default() += 1;
+                return;
+            }
+        }
         match stage.as_str() {
             "unjudged" => {
                 self.st.unjudged += 1;
@@ -886,6 +907,9 @@ impl Runner {
             }
             Ok(Err((class, named))) => {
                 self.st.decode_reject += 1;
+                if proposal.is_some() && EPHEMERAL_RULE_CLASSES.contains(&class.as_str()) {
+                    return;
+                }
                 if proposal.is_some() {
                     self.mismatch(rec, "valid proposal refused", exp.clone(), json!({"stage": "reject", "by": "try_into_standard_proposal", "class": class}));
                     return;
